@@ -69,9 +69,7 @@ theorem ensurePut_W {o con key self x} (hc : WN con = true) (hs : WN self = true
   | ok p =>
     obtain ⟨child, s'⟩ := p
     simp only [ensurePut]
-    split
-    · exact ⟨hc, hx.1⟩
-    · exact ⟨putChild_W hc hx.1, hs⟩
+    exact ⟨putChild_W hc hx.1, hs⟩
   | err e => trivial
   | panic => trivial
 
